@@ -9,11 +9,13 @@ import complib
 from simlib import JOBS, command_text, random_plan
 
 
-def unit(job, variant, pi, seed, length, per_key):
+def unit(job, variant, pi, seed, length, per_key, only=None):
+    import gen_effects
     rng = random.Random(f"C08:{seed}:{job}:{variant}:{pi}")
     cmds = random_plan(rng, job, variant, length) if pi % 2 == 0 else simlib.rotation_plan(rng, job, variant, max(3, length // 8))
-    out = {"calls": 0, "failing": [], "by_class": {}, "views": 0, "reducers": 0, "sample": None}
-    with complib.Harvest(per_key) as hv:
+    out = {"calls": 0, "failing": [], "by_class": {}, "views": 0, "reducers": 0, "sample": None, "observed": {},
+           "mismatches": []}
+    with complib.Harvest(per_key, only=None if only is None else {tuple(x) for x in only}) as hv:
         eng = simlib.make_engine(job, variant)
         for i, c in enumerate(cmds):
             eng.exec(c)
@@ -24,6 +26,21 @@ def unit(job, variant, pi, seed, length, per_key):
         key = f"{type(call['owner']).__name__}.{call['method']}"
         out["by_class"][key] = out["by_class"].get(key, 0) + 1
         out["views" if call["is_view"] else "reducers"] += 1
+        # observations in the terms of the effect model (Simaple/Model/Effect.lean)
+        ob = complib.effect_observation(call)
+        agg = out["observed"].setdefault(key, {"changed": [], "aliases": [], "calls": 0, "raised": 0})
+        agg["calls"] += 1
+        agg["raised"] += ob["raised"] is not None
+        for c in ob["changed"]:
+            if c not in agg["changed"]:
+                agg["changed"].append(c)
+        for a in ob["aliases"]:
+            if len(agg["aliases"]) < 4 and a not in agg["aliases"]:
+                agg["aliases"].append(a)
+        if len(out["mismatches"]) < 5:
+            for mm in complib.classification_mismatches(list(call["args"]), gen_effects.ty_of_annotation, gen_effects.PRIM):
+                if mm not in out["mismatches"]:
+                    out["mismatches"].append(f"{key}: {mm}")
         problem = complib.purity_check(call)
         if problem is not None and len(out["failing"]) < 5:
             args = call["args"]
@@ -33,6 +50,22 @@ def unit(job, variant, pi, seed, length, per_key):
                                    "state": complib.dump_arg(args[-1]), "detail": problem})
     out["sample"] = {"job": job, "calls": list(out["by_class"].items())[:6]}
     return out
+
+
+EXCEPTIONS = {("AdeleStormComponent", "use")}   # Props/C08_EffectsBase.lean `pathCorrelated`
+
+
+def merge_observed(into: dict, new: dict):
+    for key, ob in new.items():
+        agg = into.setdefault(key, {"changed": [], "aliases": [], "calls": 0, "raised": 0})
+        agg["calls"] += ob["calls"]
+        agg["raised"] += ob["raised"]
+        for c in ob["changed"]:
+            if c not in agg["changed"]:
+                agg["changed"].append(c)
+        for a in ob["aliases"]:
+            if len(agg["aliases"]) < 4 and a not in agg["aliases"]:
+                agg["aliases"].append(a)
 
 
 def main(ck: Check):
@@ -46,24 +79,89 @@ def main(ck: Check):
     tot = {"calls": 0, "views": 0, "reducers": 0}
     by_class: dict[str, int] = {}
     samples = []
-    for args, out in pmap(unit, work, ck.budget_s * 0.7):
-        if args is None:
-            ck.notes.append(f"budget reached: {out}")
-            if out["done"] < max(4, out["total"] // 2):
-                raise TimeoutError(f"only {out['done']}/{out['total']} units finished within the budget")
-            continue
-        for k in tot:
-            tot[k] += out[k]
-        for k, v in out["by_class"].items():
-            by_class[k] = by_class.get(k, 0) + v
-        for f in out["failing"]:
-            ck.add_failing(f)
-        if len(samples) < 3:
-            samples.append(out["sample"])
+    observed: dict[str, dict] = {}
+    mismatches: list[str] = []
+
+    def absorb(results):
+        for args, out in results:
+            if args is None:
+                ck.notes.append(f"budget reached: {out}")
+                if out["done"] < max(4, out["total"] // 2):
+                    raise TimeoutError(f"only {out['done']}/{out['total']} units finished within the budget")
+                continue
+            for k in tot:
+                tot[k] += out[k]
+            for k, v in out["by_class"].items():
+                by_class[k] = by_class.get(k, 0) + v
+            for f in out["failing"]:
+                ck.add_failing(f)
+            merge_observed(observed, out["observed"])
+            for mm in out["mismatches"]:
+                if mm not in mismatches and len(mismatches) < 10:
+                    mismatches.append(mm)
+            if len(samples) < 3:
+                samples.append(out["sample"])
+
+    absorb(pmap(unit, work, ck.budget_s * 0.55))
+
     with ck.locked():
+        ck.regenerate(["effects"])
         proved = ck.prove("Simaple.Props.C08")
         if not quick and proved:
-            ck.leanchecker(["Simaple.Props.C08"])
+            ck.leanchecker(["Simaple.Props.C08", "Simaple.Props.C08_Effects"])
+        res = ck.driver([{"fn": "effects_table"}], timeout=600)
+
+    # ---- the effect model against what the real calls did
+    model_ok = 0
+    ill_formed: list[tuple[str, str]] = []
+    entries = {}
+    if res is not None and "ok" in res[0]:
+        tab = res[0]["ok"]
+        for cls, meth, why in tab["notLowered"]:
+            ck.broken.append({"kind": "translator", "generator": "effects", "component_class": cls, "method": meth,
+                              "error": why})
+            ill_formed.append((cls, meth))
+        for e in tab["entries"]:
+            entries[f"{e['cls']}.{e['method']}"] = e
+            if not e["wellFormed"] and (e["cls"], e["method"]) not in EXCEPTIONS:
+                ill_formed.append((e["cls"], e["method"]))
+                ck.broken.append({"kind": "proof", "theorem": "Simaple.Props.C08.table_wellFormed",
+                                  "component_class": e["cls"], "method": e["method"],
+                                  "what": "the effect checker rejects the program generated from this method: it may "
+                                          "write an object that existed before the call"})
+        for key, ob in observed.items():
+            e = entries.get(key)
+            if e is None:
+                ck.broken.append({"kind": "correspondence", "point": "a harvested method has no effect program", "method": key})
+                continue
+            stores = set(e["stores"])
+            bad = [c for c in ob["changed"] if not (c[1] in stores or c[0] in stores or (c[2] and "[]" in stores))]
+            if bad:
+                ck.broken.append({"kind": "correspondence", "point": "observed state change not among the stores of the effect program",
+                                  "method": key, "changed": bad[:4], "model_stores": sorted(stores)})
+            taint = set(e["taint"])
+            if e["resultTag"] in ("fresh", "prim"):
+                al = [a for a in ob["aliases"] if not any(("." + t) in a[0] for t in taint)]
+                if al:
+                    ck.broken.append({"kind": "correspondence",
+                                      "point": "the result state shares a mutable object with the arguments / the component although "
+                                               "the effect model derives it is freshly allocated",
+                                      "method": key, "aliases": al[:3]})
+            if not bad:
+                model_ok += 1
+        for mm in mismatches:
+            ck.broken.append({"kind": "correspondence", "point": "static immutable/mutable classification of the translator", "what": mm})
+    elif res is not None:
+        ck.broken.append({"kind": "driver", "answer": res[0]})
+
+    # ---- a broken obligation: look harder for a concrete failing call of exactly those methods
+    if ill_formed and not ck.failing:
+        only = sorted(set(ill_formed))
+        work2 = [(job, v, pi, ck.seed + 1000, 60, 4000, only) for job in JOBS for v in ([0, 1] if quick else [0, 1, 2])
+                 for pi in range(4 if quick else 12)]
+        absorb(pmap(unit, work2, ck.budget_s * 0.3))
+        ck.notes.append(f"targeted search on {only}: {len(ck.failing)} failing call(s) found")
+
     ck.coverage.update({
         "evaluations": tot["calls"],
         "distinct_nontrivial": len(by_class),
@@ -71,21 +169,39 @@ def main(ck: Check):
                 f"(distinct by (class, method, payload, state dump), at most {per_key} per (class, method)); each is replayed as a "
                 "direct call component.<method>(payload, state) twice on the SAME argument objects and once on deep copies: the "
                 "dump of every argument must be unchanged after each call, the component itself unchanged, and the three results "
-                "equal. evaluations = harvested calls; distinct_nontrivial = distinct (class, method) pairs",
+                "equal. Each call is also compared with the effect program generated from the method: every (entity, field) the "
+                "call changed must be a store of the program, a result the model derives fresh must share no mutable object "
+                "(by identity) with the arguments or the component, and every field the translator treats as immutable must "
+                "hold an immutable value. evaluations = harvested calls; distinct_nontrivial = distinct (class, method) pairs",
         "samples": samples,
         **tot,
         "calls_by_class_and_method": by_class,
-        "explanation": "Level 'other' (partial): in the functional Lean model a reducer is a function, so input mutation and "
-                       "repeatability cannot be stated non-trivially; what is PROVED (Simaple.Props.C08) is the frame of the "
-                       "dispatcher for an arbitrary reducer: it reads only the entities bound to the component, writes only "
-                       "those, and its events are a function of them. What DECIDES the property is the observation above on the "
-                       "real Python objects.",
+        "effect_programs": len(entries),
+        "effect_programs_wellformed": sum(1 for e in entries.values() if e["wellFormed"]),
+        "effect_programs_outside_discipline": sorted(f"{c}.{m}" for c, m in EXCEPTIONS),
+        "methods_observed_against_effect_model": len(observed),
+        "methods_agreeing_with_effect_model": model_ok,
+        "results_derived_fresh": sum(1 for e in entries.values() if e["resultTag"] in ("fresh", "prim")),
+        "results_possibly_aliasing_the_input": sorted(k for k, e in entries.items() if e["kind"] == "reducer" and e["resultTag"] == "shared"),
+        "tainted_fields": sorted({t for e in entries.values() for t in e["taint"]}),
+        "explanation": "PROVED (Simaple.Props.C08_Effects, regenerated from the source on every run): for every reducer and view "
+                       "method of every shipped component class except the listed path-correlated one, on every heap and for every "
+                       "argument, at every point of the call no object that existed before the call is written. PROVED "
+                       "(Simaple.Props.C08): the dispatcher's frame. OBSERVED: repeatability (same in, same out) on harvested calls; "
+                       "in the functional L2 models a reducer is a function, so repeatability holds there by construction.",
     })
-    ck.assumptions += ["object mutation is observed, not proved"]
-    ck.finish("other",
-              trusted_base=["Lean 4.33 kernel (frame theorems)", "the harvest/replay harness (complib.purity_check)"],
-              checker_cmd="cd lean && lake build Simaple.Props.C08 && lake env lean Simaple/Audit/C08.lean",
-              explanation="frame theorems proved in Lean; object mutation / repeatability observed on harvested real calls")
+    ck.assumptions += ["Python's deepcopy allocates every mutable object reachable from its result (IsDeepCopy); observed by the "
+                       "identity walk on every harvested call",
+                       "the lowering of gen_effects.py over-approximates the Python method (validated by the observed changes "
+                       "and aliases of every harvested call)",
+                       "static types classify immutable values correctly (validated on every harvested argument object)",
+                       "repeatability is observed, not proved, at the Python level"]
+    ck.finish("proof",
+              trusted_base=["Lean 4.33 kernel", "axioms ⊆ {propext, Classical.choice, Quot.sound}",
+                            "tools/py2lean/gen_effects.py (Python AST -> effect IR)", "pydantic / CPython deepcopy semantics",
+                            "the harvest/replay harness (complib.purity_check, complib.effect_observation)"],
+              checker_cmd="cd lean && lake build Simaple.Props.C08 Simaple.Props.C08_Effects && lake env lean Simaple/Audit/C08.lean",
+              explanation="effect discipline proved in Lean on programs regenerated from the source; repeatability observed")
 
 
 if __name__ == "__main__":
